@@ -134,7 +134,7 @@ class FakeQueue:
                 self.s.log("get_empty", self.name)
                 raise queue.Empty
         item = self.items.pop(0)
-        self.s.log("get", self.name, item)
+        self.s.log("get" if block else "get_nb", self.name, item)
         return item
 
     def get_nowait(self):
